@@ -174,6 +174,7 @@ func (r *checkRun) run() int {
 		res := runStatic(prog, sc)
 		r.static = append(r.static, res)
 	}
+	r.macroCovers()
 	r.applyKnownFindings()
 	timeout := 10
 	if r.tier == "thorough" {
@@ -234,6 +235,44 @@ func (r *checkRun) genFunc(pf PropFunc, macro bool) *VC {
 		}
 	}
 	return vc
+}
+
+// macroCovers: vacuity (cover) queries must come back "sat"; they are generated with
+// spec functions expanded inline, which is where the solvers can build models.
+func (r *checkRun) macroCovers() {
+	for _, vc := range r.vcs {
+		hasCover := false
+		for _, o := range vc.obls {
+			if o.Kind == "cover" {
+				hasCover = true
+			}
+		}
+		if !hasCover {
+			continue
+		}
+		specMacroMode = true
+		var vc2 *VC
+		if vc.fn != nil {
+			vc2 = GenFunc(r.prog, vc.fn, vc.fc)
+		} else if vc.lemma != nil {
+			vc2 = GenLemma(r.prog, vc.lemmaPkg, vc.lemma, vc.qname)
+		}
+		specMacroMode = false
+		if vc2 == nil {
+			continue
+		}
+		for _, o := range r.obls {
+			if o.vc != vc || o.Kind != "cover" {
+				continue
+			}
+			for _, o2 := range vc2.obls {
+				if o2.Name == o.Name {
+					o.vc = vc2
+					o.Goal, o.Path, o.lineIdx = o2.Goal, o2.Path, o2.lineIdx
+				}
+			}
+		}
+	}
 }
 
 // applyKnownFindings splits obligations that carry a recorded finding into the part
